@@ -59,6 +59,11 @@ def run(chk, tier, proof_ok):
         for key, text, payload in f:
             if not any(k_ == key for k_, _, _ in findings):
                 findings.append((key, text, payload))
+    lf, nl = realsearch.ladder_state_roundtrip_findings(chk.seed * 41 + 2, 40 if full else 8)
+    chk.coverage['ladder_state_roundtrips'] = nl
+    for key, text, payload in lf:
+        if not any(k_ == key for k_, _, _ in findings):
+            findings.append((key, text, payload))
     chk.coverage['search'] = {'configurations': ncfg, 'cuts': ncuts,
                               'oracle': 'bit-exact suffix history and final state of a fresh sampler (other seed) resumed '
                               'from the pickled state at EVERY iteration boundary vs the uninterrupted run'}
